@@ -226,7 +226,7 @@ def uniq(sequence: ArrayT, key: object = None) -> list[object]:
         for obj in sequence:
             try:
                 item = obj[key]
-            except KeyError:
+            except (KeyError, IndexError):
                 item = MISSING
             except TypeError as err:
                 raise FilterArgumentError(
@@ -246,8 +246,16 @@ def uniq(sequence: ArrayT, key: object = None) -> list[object]:
 def compact(sequence: ArrayT, key: object = None) -> list[object]:
     """Return a copy of _sequence_ with any nil values removed."""
     if key is not None:
+
+        def _value(itm: Any) -> object:
+            try:
+                return itm[key]
+            except (KeyError, IndexError):
+                # a missing property is nil
+                return None
+
         try:
-            return [itm for itm in sequence if itm[key] is not None]
+            return [itm for itm in sequence if _value(itm) is not None]
         except TypeError as err:
             raise FilterArgumentError(
                 f"can't read property '{key}'", token=None
